@@ -11,7 +11,12 @@ Next == UNCHANGED x
 
 Triples(items, c) == Map(LAMBDA it : <<Start(it), End(it), Val(it)>>, ItemsOf(items, c))
 
-V01(o) == IF o.obs.result # "ok" THEN "not-ok"
+\* one very long single-chromosome behaviour (items_per_slot at its maximum): plain sequence equality
+VLong(o) == IF o.obs.result # "ok" THEN "not-ok"
+            ELSE IF o.obs.chroms # << <<1, o.chroms[1]>> >> THEN "chromtable"
+            ELSE IF o.obs.read # o.items THEN "roundtrip-long" ELSE "ok"
+V01(o) == IF o.long = 1 THEN VLong(o) ELSE
+          IF o.obs.result # "ok" THEN "not-ok"
           ELSE IF RoundTripOK(o.items, o.chroms, o.obs) THEN "ok"
           ELSE IF RoundTripKnownF14(o.items, o.chroms, o.obs) THEN "known:F14"
           ELSE IF ~ChromTableOK(o.items, o.chroms, o.obs.chroms) THEN "chromtable"
